@@ -160,7 +160,7 @@ func startsWithEmptyLine(v string) bool {
 
 var specC08Write = Register(&Spec[WriteCase]{
 	Prop: "C08", Name: "write",
-	Rule: "paragraphs of 1..6 valid field names whose values are line sequences: 1..8 lines, each text (no trailing blanks, not exactly '.'), indented text, or empty (also runs of 2..3 empty lines, also as last line), trailing newline present or absent, first line sometimes indented; a value is sometimes the empty string. Oracle: WriteTo output has no empty/whitespace-only line; reading it gives exactly one paragraph with the same Order and per field the same logical lines (equal up to one trailing newline); writing what was read reproduces the text byte for byte; WriteTo / Encoder.Encode into a writer that fails after 0, 1, half or all but one of the bytes return an error and have delivered a prefix of the text. Non-trivial: some value has >= 2 lines; distinct by paragraph.",
+	Rule: "paragraphs of 1..6 valid field names whose values are line sequences: 1..8 lines, each text (no trailing blanks, not exactly '.'), indented text, or empty (also runs of 2..3 empty lines, also as last line), trailing newline present or absent, first line sometimes indented; a value is sometimes the empty string. Oracle: WriteTo output has no empty/whitespace-only line; reading it gives exactly one paragraph with the same Order and per field the same logical lines (equal up to one trailing newline); writing what was read reproduces the text byte for byte; with a whitespace-only (not empty) first line put in front of a value the written form still has no whitespace-only line and reads back as one paragraph; WriteTo / Encoder.Encode into a writer that fails after 0, 1, half or all but one of the bytes return an error and have delivered a prefix of the text. Non-trivial: some value has >= 2 lines; distinct by paragraph.",
 	Check: func(c WriteCase, r *Recorder) error {
 		nt := false
 		for _, f := range c.Feats {
@@ -201,6 +201,23 @@ var specC08Write = Register(&Spec[WriteCase]{
 		}
 		if w2 != w {
 			return errf("write(read(w)) != w: %q became %q", w, w2)
+		}
+		// a whitespace-only (not empty) first line in front of a value: what is written has no
+		// whitespace-only line in it either, and reads back as one paragraph with the same names
+		for _, lead := range []string{"  ", "\t", " \t "} {
+			q := c.P.para()
+			k0 := c.P.Order[0]
+			q.Values[k0] = lead + "\n" + c.P.Values[k0]
+			wq, err := writePara(q)
+			if err != nil {
+				return errf("WriteTo of a value with a whitespace-only first line %q: %v", q.Values[k0], err)
+			}
+			if err := noBlankLineInside(wq); err != nil {
+				return errf("value %q (a whitespace-only first line): %v", q.Values[k0], err)
+			}
+			if bq, err := readParas(wq); err != nil || len(bq) != 1 || strings.Join(bq[0].Order, "\x00") != strings.Join(c.P.Order, "\x00") {
+				return errf("value %q (a whitespace-only first line) written as %q reads back as %d paragraphs (err %v)", q.Values[k0], wq, len(bq), err)
+			}
 		}
 		// a writer that fails (disk full, connection gone) after k bytes: what was written is a
 		// prefix of the paragraph's text, and the caller is told - a paragraph that did not get
